@@ -19,7 +19,7 @@ PROP = dict(
         "fault matrix, not all programs: 39 (statement kind, failure kind) pairs x failing row first/middle/last (every row for tables <= 8 rows in the thorough tier) x file / temporary table x 5 states before the statement; cancellation is injected by a timer (position not controlled) and compared in Go",
         "C08_failed_stmt_noop_partial assumes that no other process committed to a table this transaction loaded by a plain SELECT (otherwise the failing statement's load for update shows the new file: the documented exception of C20; C08_failed_stmt_noop_refuted)",
     ],
-    level_text="Proof (partial, as planned): (1) Model/CopyPublish.v models the copy/publish discipline one level below the statement -- a heap of record arrays and cells, View.Copy = fresh record arrays + shared cells, the in-place and re-allocating writes of UPDATE / REPLACE / INSERT / DELETE / ALTER ADD / DROP as primitives, failure after any number of them, publication by swapping the map entry. Theorems for ALL heaps, view maps and primitive sequences: C08_copy_isolates (no write sequence on a copy, complete or cut short, changes what any published view dereferences to), C08_statement_spec (a failed statement publishes nothing and changes no view; a successful one changes only its own table; well-formedness is preserved, so it holds along any statement sequence), C08_copy_shows_original; an example shows that a copy sharing the record arrays leaks a failed UPDATE. (2) In the transaction model of C01 a failed statement is the effect SFail (tables loaded for update before the error): C08_failed_stmt_noop_partial (nothing visible, no file, no uncommitted set changes) for every state without foreign commits to plainly loaded tables (C08_fresh_without_foreign_commits: all histories without commits of other processes), C08_failed_stmt_noop_refuted (with a foreign commit the reload shows through -- C20's documented exception), C08_failed_stmt_not_committed (a later COMMIT writes exactly what it would have written without the failed statement; all histories). NOT proved: that the Go code implements the discipline (slice aliasing) -- this is checked by the correspondence: one interactive Transaction per case, fault matrix statement kind x failure kind x failing row x file/temporary x state before, every visible table read after every step and compared with the model and with its value before the failing statement, then COMMIT/ROLLBACK and the files re-read; cancellation is additionally injected at every single point: a context whose Err() answers nil n times and reports the cancellation from then on, for every n up to the first with which the statement completes, over statements that are the first to load their table (the load itself is cancelled) and two-table UPDATE / DELETE over files and temporary tables (cancelled between the storing of one table and the next), each followed by a later successful change, COMMIT and a re-read by a new session.",
+    level_text="Proof (partial, as planned): (1) Model/CopyPublish.v models the copy/publish discipline one level below the statement -- a heap of record arrays and cells, View.Copy = fresh record arrays + shared cells, the in-place and re-allocating writes of UPDATE / REPLACE / INSERT / DELETE / ALTER ADD / DROP as primitives, failure after any number of them, publication by swapping the map entry. Theorems for ALL heaps, view maps and primitive sequences: C08_copy_isolates (no write sequence on a copy, complete or cut short, changes what any published view dereferences to), C08_statement_spec (a failed statement publishes nothing and changes no view; a successful one changes only its own table; well-formedness is preserved, so it holds along any statement sequence), C08_copy_shows_original; an example shows that a copy sharing the record arrays leaks a failed UPDATE. (2) In the transaction model of C01 a failed statement is the effect SFail (tables loaded for update before the error): C08_failed_stmt_noop_partial (nothing visible, no file, no uncommitted set changes) for every state without foreign commits to plainly loaded tables (C08_fresh_without_foreign_commits: all histories without commits of other processes), C08_failed_stmt_noop_refuted (with a foreign commit the reload shows through -- C20's documented exception), C08_failed_stmt_not_committed (a later COMMIT writes exactly what it would have written without the failed statement; all histories). NOT proved: that the Go code implements the discipline (slice aliasing) -- this is checked by the correspondence: one interactive Transaction per case, fault matrix statement kind x failure kind x failing row x file/temporary x state before, every visible table read after every step and compared with the model and with its value before the failing statement, then COMMIT/ROLLBACK and the files re-read; cancellation is additionally injected at every single point: a context whose Err() answers nil n times and reports the cancellation from then on, for every n up to the first with which the statement completes, over statements that are the first to load their table (the load itself is cancelled) and two-table UPDATE / DELETE over files and temporary tables (cancelled between the storing of one table and the next), each followed by a later successful change, COMMIT and a re-read by a new session. Refused ALTER TABLE .. SET statements (16 of them on JSON, JSON Lines, CSV and LTSV tables) are followed by a change of format and COMMIT, and the files are compared byte for byte with those of the same session without the refused statement.",
     level_note="Trusted: Coq kernel + vm_compute; Go harness; the abstraction from Go slices to the heap model is validated only by the enumerated fault matrix (no proof about the Go code); cancellation position is not controlled.",
     technique="Coq theorems on a heap-level copy/publish model and on the transaction model + enumerated fault injection through the library compared inside Coq",
     design_ref="DESIGN.md section 5 (C08)",
